@@ -28,18 +28,21 @@ HARNESSES = [
 NPOS = 2**64 - 1
 FAMS = ["find", "rfind", "ffo", "ffno", "flo", "flno"]
 # per character type: the exhaustive alphabet {a, b, 0x80-ish} and extra letters for random strings
+# The third letter of every wide alphabet equals the first one in its low 8 and low 16 bits (so an equality or
+# order that looks only at the low byte / a narrowed value confuses them) and lies on the other side of the sign
+# boundary of its type.
 ALPHA = {
     "c": [97, 98, -128],            # char: 0x80 is negative as a char, larger than 'a' as unsigned char
-    "w": [97, 98, -128],            # wchar_t is a signed 32-bit type here: -128 < 'a' also for std
-    "u": [97, 98, 0x80000005],      # char32_t: unsigned, value above INT32_MAX
-    "s": [97, 98, 0x8000],
+    "w": [97, 98, 97 - 65536],      # wchar_t is a signed 32-bit type here: negative, < 'a' also for std; low 16 bits = 'a'
+    "u": [97, 98, 0x80000061],      # char32_t: unsigned, value above INT32_MAX; low 16 bits = 'a'
+    "s": [97, 98, 0x8061],          # char16_t: above INT16_MAX; low 8 bits = 'a'
     "b": [97, 98, 0x80],
 }
 EXTRA = {
     "c": [0, 127, -1, 99],
-    "w": [0, 0x7FFFFFFF, -0x80000000, 128, 99],
-    "u": [0, 0xFFFFFFFF, 128, 99],
-    "s": [0, 0xFFFF, 128, 99],
+    "w": [0, 0x7FFFFFFF, -0x80000000, 128, 99, -128, 98 + 256],
+    "u": [0, 0xFFFFFFFF, 128, 99, 0x80000005, 98 + 65536],
+    "s": [0, 0xFFFF, 128, 99, 0x8000, 98 + 256],
     "b": [0, 0xFF, 127, 99],
 }
 
@@ -49,6 +52,12 @@ RULE = ("exhaustive: every (haystack, needle) over a 3-letter alphabet {a, b, 0x
         "overloads, compare (6 overloads), the six relational operators, starts_with/ends_with/contains (3 overloads "
         "each), substr, copy, remove_prefix, remove_suffix; char with |h|<=4,|n|<=3 and wchar_t/char32_t with smaller "
         "bounds in the quick tier; plus seeded random longer strings with embedded NULs and type-limit characters. "
+        "Review additions: every search family also called WITHOUT pos (default argument; view/Char/C-string forms), "
+        "substr()/substr(pos)/copy(dest,n); the heterogeneous operators `C string OP view` and `view OP C string` "
+        "(type_identity overloads) for all six operators; operator[]/front/back/swap, the (first, last) iterator-pair constructor; every call with an empty haystack "
+        "or needle is repeated with default-constructed (nullptr) views; copy writes into a destination of exactly "
+        "rlen cells whose surroundings are checked; char8_t/char16_t get a small exhaustive enumeration also in the "
+        "quick tier; random LONG strings (up to 300 characters, common prefixes of 30+ characters, needles of 20+). "
         "Each case runs in a plain build (adversarial readable guard zones) and an ASan+UBSan build (poisoned guard "
         "zones flush against both ends of every view). non-trivial = distinct case whose impl outcome is ok on a "
         "non-empty haystack")
@@ -87,6 +96,8 @@ def gen_exhaustive(ck, hmax, nmax, out, rng, light=False, full=False):
             for p in ps:
                 for fam in FAMS:
                     out.append(f"{fam} {ck} {hs} {ns} {p}")
+            for fam in FAMS:
+                out.append(f"{fam}_d {ck} {hs} {ns}")
             out.append(f"contains {ck} {hs} {ns}")
             out.append(f"starts {ck} {hs} {ns}")
             out.append(f"ends {ck} {hs} {ns}")
@@ -94,6 +105,8 @@ def gen_exhaustive(ck, hmax, nmax, out, rng, light=False, full=False):
             for p in ps:
                 for fam in FAMS:
                     out.append(f"{fam}_c {ck} {hs} {c} {p}")
+            for fam in FAMS:
+                out.append(f"{fam}_cd {ck} {hs} {c}")
             out.append(f"contains_c {ck} {hs} {c}")
             out.append(f"starts_c {ck} {hs} {c}")
             out.append(f"ends_c {ck} {hs} {c}")
@@ -104,6 +117,13 @@ def gen_exhaustive(ck, hmax, nmax, out, rng, light=False, full=False):
                 out.append(f"copy {ck} {hs} {k} {p}")
             out.append(f"rmpre {ck} {hs} {p}")
             out.append(f"rmsuf {ck} {hs} {p}")
+            out.append(f"substr_d1 {ck} {hs} {p}")
+            out.append(f"copy_d {ck} {hs} {p}")
+            out.append(f"at {ck} {hs} {p}")
+        out.append(f"substr_d0 {ck} {hs}")
+        out.append(f"ctor_it {ck} {hs}")
+        out.append(f"front {ck} {hs}")
+        out.append(f"back {ck} {hs}")
     # pointer overloads: C strings may contain an embedded zero (the C string then stops there)
     HS = strings(al, 2 if light else min(hmax, 3))
     SP = strings(al + [0], min(nmax, 2))
@@ -117,6 +137,11 @@ def gen_exhaustive(ck, hmax, nmax, out, rng, light=False, full=False):
                     if full or (p in (0, len(h), NPOS) and (light or rng.random() < 0.5)):
                         for k in range(0, len(s) + 1):
                             out.append(f"{fam}_pc {ck} {hs} {ss} {p} {k}")
+            for fam in FAMS:
+                out.append(f"{fam}_pd {ck} {hs} {ss}")
+            # heterogeneous relational operators: C string OP view, view OP C string
+            out.append(f"rel_pl {ck} {ss} {hs}")
+            out.append(f"rel_pr {ck} {hs} {ss}")
             out.append(f"contains_p {ck} {hs} {ss}")
             out.append(f"starts_p {ck} {hs} {ss}")
             out.append(f"ends_p {ck} {hs} {ss}")
@@ -128,6 +153,9 @@ def gen_exhaustive(ck, hmax, nmax, out, rng, light=False, full=False):
             out.append(f"compare {ck} {L(a)} {L(b)}")
             if full or len(a) <= 3:
                 out.append(f"rel {ck} {L(a)} {L(b)}")
+    for a in strings(al, 2):
+        for b in strings(al, 2):
+            out.append(f"swap {ck} {L(a)} {L(b)}")
     A3 = strings(al, 2 if light else 3)
     B3 = strings(al, 2)
     for a in A3:
@@ -149,7 +177,8 @@ def gen_exhaustive(ck, hmax, nmax, out, rng, light=False, full=False):
                 for k1 in pa:
                     for p2 in pb:
                         for k2 in pb:
-                            if not full and rng.random() < 0.75:
+                            valid = p1 <= len(a) and p2 <= len(b)
+                            if not full and rng.random() < ((0.75 if valid else 0.95) if light else (0.55 if valid else 0.88)):
                                 continue
                             out.append(f"compare_5 {ck} {L(a)} {p1} {k1} {L(b)} {p2} {k2}")
 
@@ -202,8 +231,12 @@ def gen_random(ck, count, out, rng):
             out.append(f"{fam}_c {ck} {hs} {c} {p}")
         elif v < 0.8:
             out.append(f"{rng.choice(['contains', 'starts', 'ends'])}{rng.choice(['', '_p'])} {ck} {hs} {ns}")
+        elif v < 0.9:
+            out.append(f"{fam}{rng.choice(['_d', '_pd'])} {ck} {hs} {ns}")
         else:
-            out.append(f"compare_5 {ck} {hs} {rpos(rng, len(h))} {rpos(rng, len(h))} {ns} {rpos(rng, len(n))} {rpos(rng, len(n))}")
+            p1 = rng.randint(0, len(h)) if rng.random() < 0.8 else rpos(rng, len(h))
+            p2 = rng.randint(0, len(n)) if rng.random() < 0.8 else rpos(rng, len(n))
+            out.append(f"compare_5 {ck} {hs} {p1} {rpos(rng, len(h))} {ns} {p2} {rpos(rng, len(n))}")
         # comparisons of strings with a long common prefix
         a = rstr(rng, ck, 12)
         b = list(a)
@@ -215,11 +248,67 @@ def gen_random(ck, count, out, rng):
         elif r < 0.7:
             b = b + rstr(rng, ck, 3)
         out.append(f"rel {ck} {L(a)} {L(b)}")
+        out.append(f"{rng.choice(['rel_pl', 'rel_pr'])} {ck} {L(a)} {L(b)}")
         out.append(f"compare {ck} {L(a)} {L(b)}")
         out.append(f"compare_3 {ck} {L(a)} {rpos(rng, len(a))} {rpos(rng, len(a))} {L(b)}")
         out.append(f"substr {ck} {hs} {p} {rpos(rng, len(h))}")
         out.append(f"copy {ck} {hs} {rpos(rng, len(h))} {p}")
         out.append(f"{rng.choice(['rmpre', 'rmsuf'])} {ck} {hs} {p}")
+
+
+def gen_long(ck, count, out, rng):
+    """long strings: the generators above stop at 24 characters, so a loop that treats blocks of 8/16/32/64
+    characters, or a narrow (8-bit) counter, would never see its second block / its wrap-around.  Haystacks of 30-300
+    characters over 2-3 letters; comparisons of strings that agree on a long prefix and differ at one (any) position
+    or only in length; needles of 20+ characters cut out of the haystack (matching at the very end, in the middle,
+    perturbed in one position)."""
+    al = ALPHA[ck]
+    for _ in range(count):
+        n = rng.choice([rng.randint(30, 70), rng.randint(30, 70), rng.randint(120, 140), rng.randint(250, 300)])
+        two = [rng.choice(al[:2]) for _ in range(2)]
+        h = [rng.choice(two if rng.random() < 0.9 else al) for _ in range(n)]
+        # comparisons: a copy that differs at exactly one position / is shorter / is longer
+        b = list(h)
+        r = rng.random()
+        if r < 0.6:
+            i = rng.randrange(n)
+            b[i] = rng.choice([c for c in al + EXTRA[ck][:2] if c != b[i]])
+        elif r < 0.75:
+            b = b[:rng.randint(n - 3, n)]
+        elif r < 0.9:
+            b = b + [rng.choice(al)]
+        a, bb = (h, b) if rng.random() < 0.5 else (b, h)
+        out.append(f"compare {ck} {L(a)} {L(bb)}")
+        out.append(f"rel {ck} {L(a)} {L(bb)}")
+        out.append(f"{rng.choice(['rel_pl', 'rel_pr'])} {ck} {L(a)} {L(bb)}")
+        out.append(f"compare_p {ck} {L(a)} {L(bb)}")
+        p1 = rng.randint(0, 3)
+        out.append(f"compare_5 {ck} {L(a)} {p1} {rpos(rng, n)} {L(bb)} {p1} {rpos(rng, n)}")
+        # long needles
+        i = rng.randint(0, n - 20)
+        j = n if rng.random() < 0.4 else rng.randint(i + 20, n)
+        nd = h[i:j]
+        if rng.random() < 0.4:
+            k = rng.randrange(len(nd))
+            nd[k] = rng.choice([c for c in al if c != nd[k]])
+        hs, ns = L(h), L(nd)
+        p = rng.choice([0, 0, i, i + 1, max(0, i - 1), n, NPOS, rng.randint(0, n)])
+        fam = rng.choice(["find", "rfind"])
+        out.append(f"{fam} {ck} {hs} {ns} {p}")
+        out.append(f"{fam}{rng.choice(['_d', '_pd'])} {ck} {hs} {ns}")
+        out.append(f"{fam}_p {ck} {hs} {ns} {p}")
+        out.append(f"{rng.choice(['starts', 'ends', 'contains'])} {ck} {hs} {L(h[:j - i] if rng.random() < 0.3 else (h[n - (j - i):] if rng.random() < 0.5 else nd))}")
+        # character-set searches with a long haystack of one letter and the match near one end
+        run = [al[0]] * n
+        if rng.random() < 0.7:
+            run[rng.choice([0, 1, n - 1, n - 2, rng.randrange(n)])] = al[1]
+        rs = L(run)
+        out.append(f"{rng.choice(['ffo', 'flo'])} {ck} {rs} 1 {al[1]} {rng.choice([0, NPOS, n - 1, rng.randint(0, n)])}")
+        out.append(f"{rng.choice(['ffno', 'flno'])} {ck} {rs} 1 {al[0]} {rng.choice([0, NPOS, n - 1, rng.randint(0, n)])}")
+        out.append(f"{rng.choice(['ffno_c', 'flno_c', 'rfind_c', 'find_c'])} {ck} {rs} {rng.choice(al[:2])} {rng.choice([0, NPOS, n - 1])}")
+        c0 = rng.randint(0, n + 2)
+        out.append(f"copy {ck} {hs} {c0} {rng.randint(0, n)}")
+        out.append(f"substr {ck} {hs} {rng.randint(0, n)} {c0}")
 
 
 def gen(tier, rng):
@@ -232,6 +321,7 @@ def gen(tier, rng):
         gen_exhaustive("b", 3, 2, out, rng, light=True)
         for ck in ("c", "w", "u", "s", "b"):
             gen_random(ck, 30000, out, rng)
+            gen_long(ck, 3000, out, rng)
     else:
         gen_exhaustive("c", 4, 3, out, rng)
         gen_exhaustive("w", 3, 2, out, rng, light=True)
@@ -239,8 +329,13 @@ def gen(tier, rng):
         gen_random("c", 2500, out, rng)
         gen_random("w", 1200, out, rng)
         gen_random("u", 1200, out, rng)
+        gen_exhaustive("s", 2, 2, out, rng, light=True)
+        gen_exhaustive("b", 2, 2, out, rng, light=True)
         gen_random("s", 300, out, rng)
         gen_random("b", 300, out, rng)
+        gen_long("c", 250, out, rng)
+        for ck in ("w", "u", "s", "b"):
+            gen_long(ck, 60, out, rng)
     return out
 
 
